@@ -35,7 +35,7 @@ func runC12(c *Ctx) {
 
 	// ---- R1 key-prefix typestate
 	var methods []*ssa.Function
-	for _, fn := range p.OwnFuncs {
+	for _, fn := range p.Subjects() {
 		if strings.HasPrefix(FuncKey(fn), "pkg/db/diffdb.(*Database).") && len(fn.Blocks) > 0 {
 			methods = append(methods, fn)
 		}
@@ -158,16 +158,17 @@ func runC12(c *Ctx) {
 	{
 		ff := factsOf(set)
 		for _, s := range CallsIn(set, "(*db/diffdb.cacheDB).set") {
-			ok1, _ := ff.BoolHoldsAt(s.Call.Block(), IsCall("(*db/diffdb.cacheDB).existAny"), true)
-			ok2, _ := ff.BoolHoldsAt(s.Call.Block(), IsCall("(*db/diffdb.Database).ensureCache"), true)
-			c.Require("C12.R3 write-through", FuncKey(set)+" ⇒ cache.set", p.InstrPos(s.Call), "cache.set only when the key is in the cache or was just loaded from the store", ok1 || ok2, "")
+			ok1 := ff.EveryPathHas(s.Call.Block(), func(f Fact) bool {
+				return !f.IsCmp && f.Truth && (IsCall("(*db/diffdb.cacheDB).existAny").Match(f.B) || IsCall("(*db/diffdb.Database).ensureCache").Match(f.B))
+			})
+			c.Require("C12.R3 write-through", FuncKey(set)+" ⇒ cache.set", p.InstrPos(s.Call), "cache.set only when the key is in the cache or was just loaded from the store (on every path to the call)", ok1, "")
 		}
 		for _, s := range CallsIn(set, "(*db/diffdb.cacheDB).add") {
 			ok1, _ := ff.BoolHoldsAt(s.Call.Block(), IsCall("(*db/diffdb.cacheDB).existAny"), false)
 			ok2, _ := ff.BoolHoldsAt(s.Call.Block(), IsCall("(*db/diffdb.Database).ensureCache"), false)
 			c.Require("C12.R3 write-through", FuncKey(set)+" ⇒ cache.add", p.InstrPos(s.Call), "cache.add (no initial value) only when neither cache nor store has the key", ok1 && ok2, "")
 		}
-		c.MinInstances("C12.R3 Set sites", len(CallsIn(set, "(*db/diffdb.cacheDB).set"))+len(CallsIn(set, "(*db/diffdb.cacheDB).add")), 3)
+		c.MinInstances("C12.R3 Set sites", len(CallsIn(set, "(*db/diffdb.cacheDB).set"))+len(CallsIn(set, "(*db/diffdb.cacheDB).add")), 2)
 		// Del: every path to cache.del either knows existAny or passed ensureCache
 		df := factsOf(del)
 		for _, s := range CallsIn(del, "(*db/diffdb.cacheDB).del") {
@@ -214,31 +215,39 @@ func runC12(c *Ctx) {
 
 	// ---- R5 merge
 	{
-		// comparator: reverse → Compare > 0, else Compare < 0
+		// comparator: descending under reverse, ascending otherwise (less-function or three-way)
+		sortCalls, cmps := sortSites(merge)
 		var cmpFn *ssa.Function
-		for _, af := range merge.AnonFuncs {
-			cmpFn = af
+		if len(cmps) > 0 {
+			cmpFn = cmps[0]
 		}
 		ok := false
 		detail := ""
 		if cmpFn != nil {
 			ff := factsOf(cmpFn)
 			okRev, okFwd := false, false
+			isRev := Matcher{"reverse", func(x *Term) bool { return x.Op == "free" || (x.Op == "load" && x.Args[0].Op == "free") }}
 			for _, r := range Returns(cmpFn) {
-				t := T(r.Results[0])
-				if t.Op != "binop" || !strings.HasSuffix(t.Args[0].Sym, "bytes.Compare") {
+				if r.Block() == cmpFn.Recover || len(r.Results) != 1 {
 					continue
 				}
-				a0, a1 := t.Args[0].Args[0].String(), t.Args[0].Args[1].String()
-				iFirst := strings.Contains(a0, "[p0]") && strings.Contains(a1, "[p1]")
-				rev, _ := ff.BoolHoldsAt(r.Block(), Matcher{"reverse", func(x *Term) bool { return x.Op == "free" || (x.Op == "load" && x.Args[0].Op == "free") }}, true)
-				fwd, _ := ff.BoolHoldsAt(r.Block(), Matcher{"reverse", func(x *Term) bool { return x.Op == "free" || (x.Op == "load" && x.Args[0].Op == "free") }}, false)
-				detail += fmt.Sprintf("[%s %s 0 rev=%v fwd=%v] ", t.Args[0].Sym, t.Sym, rev, fwd)
-				if iFirst && rev && t.Sym == ">" && t.Args[1].String() == "0" {
+				dir, key, okd := returnOrder(cmpFn, r)
+				rev, _ := ff.BoolHoldsAt(r.Block(), isRev, true)
+				fwd, _ := ff.BoolHoldsAt(r.Block(), isRev, false)
+				detail += fmt.Sprintf("[%s on %s rev=%v fwd=%v] ", dir, key, rev, fwd)
+				if !okd || !strings.Contains(key, "Key(") {
+					continue
+				}
+				if rev && dir == "desc" {
 					okRev = true
 				}
-				if iFirst && (fwd || !rev) && t.Sym == "<" && t.Args[1].String() == "0" {
+				if (fwd || !rev) && dir == "asc" {
 					okFwd = true
+				}
+				if (rev && dir == "asc") || (fwd && dir == "desc") {
+					okRev, okFwd = false, false
+					detail += "WRONG-WAY "
+					break
 				}
 			}
 			ok = okRev && okFwd
@@ -246,11 +255,11 @@ func runC12(c *Ctx) {
 		c.Require("C12.R5 merge-order", FuncKey(merge)+" comparator", p.Pos(merge.Pos()), "less(i,j) is Compare(key_i,key_j) > 0 when reverse, < 0 otherwise", ok, detail)
 		// limit slicing after sort
 		var sortCall ssa.CallInstruction
-		for _, s := range CallsIn(merge, "sort.Slice") {
-			sortCall = s.Call
+		if len(sortCalls) > 0 {
+			sortCall = sortCalls[0]
 		}
 		okL := false
-		for _, b := range merge.Blocks {
+		for _, b := range blocksDeep(merge) {
 			for _, in := range b.Instrs {
 				if sl, isS := in.(*ssa.Slice); isS && sl.High != nil && T(sl.High).Op == "param" && sortCall != nil && instrDominates(sortCall, sl) {
 					okL = true
@@ -278,7 +287,7 @@ func runC12(c *Ctx) {
 	// ---- R6 iterators closed
 	{
 		n := 0
-		for _, fn := range p.OwnFuncs {
+		for _, fn := range p.Subjects() {
 			if !strings.HasPrefix(FuncKey(fn), "pkg/db.") || len(fn.Blocks) == 0 {
 				continue
 			}
@@ -334,12 +343,12 @@ func checkSentinelProducers(c *Ctx, rule string, commit *ssa.Function) {
 	p := c.P
 	{
 		n := 0
-		for _, fn := range p.OwnFuncs {
+		for _, fn := range p.Subjects() {
 			if !strings.HasPrefix(FuncKey(fn), "pkg/db/diffdb.") || len(fn.Blocks) == 0 {
 				continue
 			}
 			ff := factsOf(fn)
-			for _, b := range fn.Blocks {
+			for _, b := range blocksDeep(fn) {
 				for _, in := range b.Instrs {
 					st, ok := in.(*ssa.Store)
 					if !ok {
@@ -361,7 +370,7 @@ func checkSentinelProducers(c *Ctx, rule string, commit *ssa.Function) {
 					c.Require(rule, FuncKey(fn)+": cacheValue.init producer", p.InstrPos(st), "init is nil or a make()-allocated (always non-nil) copy — never a value that is nil for empty input", isMake || isNil, "value: "+T(st.Val).String())
 					// if the function reads another cacheValue's init, the store must be guarded by that init != nil
 					readsInit := false
-					for _, bb := range fn.Blocks {
+					for _, bb := range blocksDeep(fn) {
 						for _, i2 := range bb.Instrs {
 							if fa2, ok := i2.(*ssa.FieldAddr); ok && fa2 != fa {
 								o2, s2 := ownerOfFieldBase(fa2.X.Type())
